@@ -29,7 +29,7 @@ TEXTS = ["", " ", "C ", " C", "c", "C1", "(", ")", "=", "#", "%10", "@", "C@@H",
 
 
 def gen_symbol(ch):
-    w = ch.weighted([(10, "grammar"), (3, "index"), (3, "text"), (2, "unicode"), (1, "unknown")])
+    w = ch.weighted([(16, "grammar"), (6, "index"), (2, "text"), (1, "unicode"), (1, "unknown")])
     if w == "grammar":
         return G.gen_atom(ch, ["C", "N+1", "Fe"])
     if w == "index":
